@@ -26,6 +26,16 @@ type call struct {
 	inst    *serverInst
 	startAt int64
 	endAt   int64
+	dropped bool                // the answer never reached the client
+	pre     map[string]preState // per key: the client's datatype right before an error pack was delivered
+}
+
+type preState struct {
+	d          *dtState
+	errs       int
+	state      string
+	sseq, cseq uint64
+	opt        string
 }
 
 type callResult struct {
